@@ -228,7 +228,7 @@ def handle_gen(rng, tier):
                 client = rng.choice(["-", "192.0.2.%d" % rng.randrange(256), "203.0.113.7", "2001:db8:1:2:3:4:5:%x" % rng.randrange(65536),
                                      "::ffff:198.51.100.%d" % rng.randrange(256), "::1", "fe80::1"])
             u = rng.random()
-            if u < 0.02:
+            if u < 0.05:
                 up = "reply:" + gens.hx(gen_reply(rng, name, qtype, qclass, k4=True))
                 tag = "k4"
             elif u < 0.80:
